@@ -1,12 +1,20 @@
 import FormulaicVerif.Engines.Json
 import FormulaicVerif.Model.Sparse
 import FormulaicVerif.Model.EntryPoints
+import FormulaicVerif.Model.Registry
+import FormulaicVerif.Model.Dispatch
+import FormulaicVerif.Model.Wrapper
 import FormulaicVerif.Gen.Names
 import FormulaicVerif.Gen.Plumbing
+import FormulaicVerif.Gen.Registry
 /-! Engine of property C05. ops:
 * `entry`   a call record (and optional follow-up records `more`) → the request(s) that reach
             `FormulaMaterializer.get_model_matrix`, for every entry point
             (registry and NAAction values: the GENERATED `Gen.materializerOutputs`, `Gen.naActions`);
+* `registry` a registration history (from the empty registry or from the GENERATED live classes) and queries →
+            `REGISTERED_NAMES` / `REGISTERED_INPUTS` after it and the answers of `for_data` / `for_materializer`;
+* `wrapper` a sequence of copy / deepcopy / pickle on a `ModelMatrix` (objects carry an identity counter) and a list of
+            leaves offered to `ModelMatrices` / `ModelSpecs` → names, numbers, object identities, container outcomes;
 * `sparse`  terms over source factors → `sparsePipeline` (names, indptr, indices, data) and `densePipeline`;
 * `sparseop` single operations on explicit columns. -/
 namespace FormulaicVerif.Engines.C05
@@ -40,14 +48,30 @@ def optNatJ : Option Nat → Json
 section entry
 open FormulaicVerif.Model.EntryPoints
 
+/-- the registry of the live package: the GENERATED classes registered in their generated order -/
+def liveRegistry : Registry.Registry := Registry.registerAll {} Gen.materializerClasses
+
+def dataOf (j : Json) : Registry.Data :=
+  { module := jstr j "module", qualname := jstr j "qualname", supportedBy := (jarr j "supportedBy").map asNat }
+
 def env : Env :=
-  { registry := Gen.materializerOutputs, naActions := Gen.naActions,
+  { registry := Dispatch.envRegistry liveRegistry, naActions := Gen.naActions, clusterBys := Gen.clusterBys,
     fwdOverride := Gen.forwardsDropOnOverride, fwdJoint := Gen.forwardsDropOnJoint }
+
+/-- `materializer=`: a string, `null`, or `{"t": "cls" | "inst" | "other", "name": REGISTER_NAME of the class | null}` -/
+def matArgOf : Json → MatArg
+  | .str s => .name s
+  | .null => .none
+  | j =>
+    match jstr j "t" with
+    | "cls" => .cls (optStr (jval j "name"))
+    | "inst" => .inst (optStr (jval j "name"))
+    | _ => .other
 
 def attrOf (j : Json) : Attr :=
   let v := jval j "v"
   match jstr j "k" with
-  | "materializer" => .materializer (optStr v)
+  | "materializer" => .materializer (matArgOf v)
   | "materializer_params" => .params (optNat v)
   | "ensure_full_rank" => .efr (asBool v)
   | "na_action" => .na (asStr v)
@@ -70,10 +94,11 @@ def specOf (j : Json) : SpecArg :=
   | "mspec" => .mspec (mspecOf (jval j "ms"))
   | _ => .mspecs ((jarr j "parts").map (fun p => (jstr p "k", mspecOf (jval p "ms"))))
 
+/-- `probe`: what `for_data` reads of the data (type module / qualname, accepting classes); the name of the
+class `for_data` picks is computed by the registry model over the GENERATED live classes -/
 def callOf (j : Json) : Call :=
-  { spec := specOf (jval j "spec"), data := jnat j "data", dataMat := optStr (jval j "dataMat"),
-    context := optNat (jval j "context"), dropRows := optNat (jval j "dropRows"),
-    overrides := (jarr j "overrides").map attrOf }
+  Dispatch.callFor liveRegistry liveRegistry.classes (specOf (jval j "spec")) (jnat j "data") (dataOf (jval j "probe"))
+    (optNat (jval j "context")) (optNat (jval j "dropRows")) ((jarr j "overrides").map attrOf)
 
 def requestJ (r : Request) : Json :=
   Json.mkObj [("mat", Json.str r.matName), ("data", natJ r.data), ("context", optNatJ r.context),
@@ -86,6 +111,7 @@ def resultJ : Except Err (List Request) → Json
   | .ok rs => Json.mkObj [("requests", jlist (rs.map requestJ))]
 
 def viaAll (c : Call) : List (String × Json) := [
+    ("dataMat", optStrJ c.dataMat),
     ("sugar", resultJ (requestVia env .sugar c)),
     ("formula", resultJ (requestVia env .formulaMethod c)),
     ("spec", resultJ (requestVia env .specMethod c)),
@@ -98,6 +124,104 @@ def handleEntry (j : Json) : Json :=
   Json.mkObj (viaAll (callOf (jval j "call")) ++
     [("more", jlist ((jarr j "more").map (fun c => Json.mkObj (viaAll (callOf c)))))])
 end entry
+
+/-! ### registry -/
+section registry
+open FormulaicVerif.Model.Registry
+
+def optStrs : Json → Option (List String)
+  | .arr a => some (a.toList.map asStr)
+  | _ => none
+
+def matClassOf (j : Json) : MatClass :=
+  { cid := jnat j "cid", name := optStr (jval j "name"), ownName := jbool j "ownName",
+    ownInputs := optStrs (jval j "ownInputs"), outputs := strs j "outputs", precedence := ratOfString (jstr j "prec") }
+
+def regErrJ : Err → Json
+  | .unknownName n => Json.mkObj [("error", Json.str (Err.name (.unknownName n))), ("kind", Json.str "unknownName"), ("listed", jstrs [n])]
+  | .invalid => Json.mkObj [("error", Json.str (Err.name .invalid)), ("kind", Json.str "invalid"), ("listed", jstrs [])]
+  | .noInput l => Json.mkObj [("error", Json.str (Err.name (.noInput l))), ("kind", Json.str "noInput"), ("listed", jstrs l)]
+  | .noOutput l => Json.mkObj [("error", Json.str (Err.name (.noOutput l))), ("kind", Json.str "noOutput"), ("listed", jstrs l)]
+
+def regResJ : Except Err MatClass → Json
+  | .ok c => Json.mkObj [("ok", natJ c.cid)]
+  | .error e => regErrJ e
+
+def handleRegistry (j : Json) : Json :=
+  let all := (jarr j "classes").map matClassOf
+  let byCid (n : Nat) : MatClass := (all.find? (fun c => c.cid == n)).getD { cid := n }
+  let base : Registry := if jstr j "base" == "live" then liveRegistry else {}
+  let created := (jarr j "created").map (fun x => byCid (asNat x))
+  let r := registerAll base created
+  let setOrder := (jarr j "setOrder").map (fun x => byCid (asNat x))
+  let answer (q : Json) : Json :=
+    match jstr q "q" with
+    | "data" =>
+      let d := dataOf q
+      let o := optStr (jval q "output")
+      match forData r setOrder d o with
+      | .ok c =>
+        -- `for_data_set_order_irrelevant`: under another iteration order of the set the answer is `c` itself when `c` is
+        -- explicitly registered for the input type, else an accepting class of the SAME precedence that offers the output
+        let alike := if (registeredFor r d).contains c then [c]
+          else (fallbackFor setOrder d).filter (fun k => offers o k && k.precedence == c.precedence)
+        Json.mkObj [("ok", natJ c.cid), ("any_order", jlist (alike.map (fun k => natJ k.cid)))]
+      | .error e => regErrJ e
+    | _ =>
+      let arg : MatArg := match jstr q "t" with
+        | "name" => .name (jstr q "v")
+        | "inst" => .inst (byCid (jnat q "c"))
+        | "cls" => .cls (byCid (jnat q "c"))
+        | _ => .other
+      regResJ (forMaterializer r arg)
+  Json.mkObj [
+    ("names", jlist (r.names.map (fun p => jlist [Json.str p.1, natJ p.2.cid]))),
+    ("inputs", jlist (r.inputs.map (fun p => jlist [Json.str p.1, jlist (p.2.map (fun c => natJ c.cid))]))),
+    ("classes", jlist (r.classes.map (fun c => natJ c.cid))),
+    ("answers", jlist ((jarr j "queries").map answer))]
+end registry
+
+/-! ### wrapper -/
+section wrapper
+open FormulaicVerif.Model.Wrapper
+
+/-- objects carry an identity: every copy is a new object with the same content -/
+def bumping : Copiers (Nat × List (List String)) (Nat × List String) :=
+  ⟨fun a => (a.1 + 1, a.2), fun a => (a.1 + 1, a.2), fun a => (a.1 + 1, a.2), fun s => (s.1 + 1, s.2), fun s => (s.1 + 1, s.2)⟩
+
+def opOf : String → Op
+  | "copy" => .copy
+  | "deepcopy" => .deepcopy
+  | _ => .pickle
+
+def itemOf (j : Json) : Item (Nat × List (List String)) (Nat × List String) :=
+  match asStr j with
+  | "matrix" => .matrix ⟨(0, []), some (0, [])⟩
+  | "matrix_nospec" => .matrix ⟨(0, []), none⟩
+  | "spec" => .spec (0, [])
+  | _ => .other
+
+def outcomeJ {β} (keys : β → List String) : Except Wrapper.Err β → Json
+  | .ok b => Json.mkObj [("keys", jstrs (keys b))]
+  | .error _ => jerr "TypeError"
+
+def handleWrapper (j : Json) : Json :=
+  let m0 : MM (Nat × List (List String)) (Nat × List String) :=
+    ⟨(0, (jarr j "rows").map (fun r => (asArr r).map asStr)), some (0, strs j "names")⟩
+  let m := m0.applyAll bumping ((jarr j "ops").map (fun o => opOf (asStr o)))
+  let items := (jarr j "items").map (fun it => (jstr it "k", itemOf (jval it "v")))
+  let mms := mkModelMatrices items
+  Json.mkObj [
+    ("names", match m.spec with | some s => jstrs s.2 | none => Json.null),
+    ("rows", jlist (m.wrapped.2.map jstrs)),
+    ("same_spec_object", Json.bool (m.spec.map (·.1) == some 0)),
+    ("same_wrapped_object", Json.bool (m.wrapped.1 == 0)),
+    ("matrices", outcomeJ (fun b => b.map (·.1)) mms),
+    ("specs", outcomeJ (fun b => b.map (·.1)) (mkModelSpecs items)),
+    ("model_spec", match mms with
+      | .ok b => outcomeJ (fun x => x.map (·.1)) (modelSpecOf b)
+      | .error _ => Json.null)]
+end wrapper
 
 /-! ### sparse -/
 section sparse
@@ -113,6 +237,7 @@ def scolOf (j : Json) : SCol :=
 def fsrcOf (j : Json) : FSrc :=
   match jstr j "t" with
   | "num" => .num (jstr j "name") (colOf (jval j "vals"))
+  | "one" => .one (jnat j "nrows")
   | _ => .cat (jstr j "name") ((jarr j "vals").map optStr) (strs j "levels") (jbool j "reduced")
 
 def stermOf (j : Json) : STerm := ⟨ratOfString (jstr j "scale"), (jarr j "factors").map fsrcOf⟩
@@ -154,6 +279,8 @@ end sparse
 def handle (j : Json) : Json :=
   match jstr j "op" with
   | "entry" => handleEntry j
+  | "registry" => handleRegistry j
+  | "wrapper" => handleWrapper j
   | "sparse" => handleSparse j
   | "sparseop" => handleSparseOp j
   | "noop" => Json.mkObj []
